@@ -47,7 +47,7 @@ def _bname(k):
     return k
 
 
-def rule_1(ctx):
+def _rule_1_fragment(ctx):
     em, t = _tables(ctx)
     for name in ('BASE_NUMBERS', 'BIT_WIDTHS', 'BOUNDS'):
         if name not in t:
@@ -84,7 +84,7 @@ def rule_1(ctx):
     ctx.floor(13, 'table entries')
 
 
-def rule_2(ctx):
+def _rule_2_fragment(ctx):
     em = _em(ctx)
     names = [f'{a}2{b}'.upper() for a in ('bin', 'oct', 'hex', 'dec') for b in ('bin', 'oct', 'hex', 'dec') if a != b]
     reg = {f.name: f for f in ctx.a.registry if f.module is em}
@@ -136,7 +136,7 @@ def _isinst_factory(ctx):
     return isinst
 
 
-def rule_3(ctx):
+def _rule_3_fragment(ctx):
     em = _em(ctx)
     isinst = _isinst_factory(ctx)
     models = {'builtin:bin': bin, 'builtin:oct': oct, 'builtin:hex': hex}
@@ -218,7 +218,7 @@ def rule_3(ctx):
     ctx.floor(45, 'guard decisions at critical points')
 
 
-def rule_4(ctx):
+def _rule_4_fragment(ctx):
     em = _em(ctx)
     conv = ctx.func('xlfunctions.engineering', 'conversion')
     p = func_params(conv)
@@ -276,10 +276,157 @@ def rule_5(ctx):
     c08.rule_6(ctx)
 
 
+_REF_BASES = {'BIN': (2, 10), 'OCT': (8, 30), 'HEX': (16, 40)}      # radix, bits of the ten-digit two's complement
+
+
+def _digits(value, base):
+    radix, bits = _REF_BASES[base]
+    if value < 0:
+        value += 1 << bits
+    out = ''
+    while True:
+        value, r = divmod(value, radix)
+        out = '0123456789ABCDEF'[r] + out
+        if value == 0:
+            return out
+
+
+def oracle(origin, dest, number, places=None):
+    """Reference result of <origin>2<dest>(number[, places]): ('text', digits) / ('number', n) / '#NUM!' / '#VALUE!'."""
+    if isinstance(number, bool) or isinstance(places, bool):
+        return '#VALUE!'
+    if origin == 'DEC':
+        value = int(number)
+    else:
+        text = number if isinstance(number, str) else str(number)
+        radix, bits = _REF_BASES[origin]
+        if text == '':
+            text = '0'
+        if len(text) > 10 or any(ch.upper() not in '0123456789ABCDEF'[:radix] for ch in text):
+            return '#NUM!'
+        value = int(text, radix)
+        if value >= 1 << (bits - 1):
+            value -= 1 << bits
+    widths = [_REF_BASES[b][1] for b in (origin, dest) if b != 'DEC']
+    bound = 1 << (min(widths) - 1)
+    if not (-bound <= value < bound):
+        return '#NUM!'
+    if dest == 'DEC':
+        return ('number', value)
+    if places is not None:
+        places = int(places)
+        if not (1 <= places <= 10):
+            return '#NUM!'
+    digits = _digits(value, dest)
+    if places is not None and value >= 0:
+        if places < len(digits):
+            return '#NUM!'
+        digits = digits.zfill(places)
+    return ('text', digits)
+
+
+def witness_rows():
+    """(function name, origin, dest, number, places)"""
+    rows = []
+    names = [(o, d) for o in ('BIN', 'OCT', 'HEX', 'DEC') for d in ('BIN', 'OCT', 'HEX', 'DEC') if o != d]
+    for o, d in names:
+        widths = [_REF_BASES[b][1] for b in (o, d) if b != 'DEC']
+        bound = 1 << (min(widths) - 1)
+        values = [-bound - 1, -bound, -bound + 1, -2, -1, 0, 1, 2, 10, bound - 1, bound, bound + 1]
+        for v in values:
+            if o == 'DEC':
+                num = v
+            else:
+                obits = _REF_BASES[o][1]
+                if not (-(1 << (obits - 1)) <= v < (1 << (obits - 1))):
+                    continue
+                num = _digits(v, o)
+            cat = 'window' if abs(v) > 100 else ('negative' if v < 0 else 'small')
+            rows.append((f'{o}2{d}', o, d, num, None, cat))
+        if d != 'DEC':
+            sample = 5 if o == 'DEC' else _digits(5, o)
+            neg = -5 if o == 'DEC' else _digits(-5, o)
+            need = len(_digits(5, d))
+            for places in (need, need + 3, 10, need - 1 if need > 1 else 0, 0, 11, -1, True):
+                rows.append((f'{o}2{d}', o, d, sample, places, 'guards'))
+            for places in (0, 1, 10, 11):
+                rows.append((f'{o}2{d}', o, d, neg, places, 'guards'))
+        if o != 'DEC':
+            radix = _REF_BASES[o][0]
+            for bad in ('0123456789ABCDEFG'[radix] + '1', '1.0', '+1', ' 1', '1_0', '-1', 'false', 'FALSE', '1' * 11, ''):
+                rows.append((f'{o}2{d}', o, d, bad, None, 'guards'))
+        rows.append((f'{o}2{d}', o, d, True, None, 'guards'))
+    return rows
+
+
+CATEGORY = {
+    'window': ('C19.1', 'window boundaries (-bound-1, -bound, ..., bound-1, bound, bound+1) of the two bases'),
+    'small': ('C19.2', 'small non-negative values'),
+    'guards': ('C19.3', 'places (exact fit, wider, 10, too small, 0, 11, negative, boolean; with a negative number) and invalid inputs '
+                         '(foreign digit, fraction, sign, blank, underscore, "false", 11 digits, empty, boolean)'),
+    'negative': ('C19.4', 'small negative values: two\'s complement in the width of the destination, sign read in the width of the origin'),
+}
+
+
+def _witness_rule(ctx, category):
+    """One slice of the reference table (rules C19.1 - C19.4): the conversion functions as the evaluator calls them (registered
+    wrapper, value classes, engineering helpers as written) against an independent reference implementation."""
+    from . import values as V
+    n = 0
+    per_fn = {}
+    names = sorted({r[0] for r in witness_rows()})
+
+    def wrap(v):
+        if isinstance(v, bool):
+            return V.boolean(v)
+        if isinstance(v, str):
+            return V.text(v)
+        return V.num(v)
+    for name, o, d, number, places, cat in witness_rows():
+        if cat != category:
+            continue
+        want = oracle(o, d, number, places)
+        out = V.call(ctx, name, [wrap(number)] + ([wrap(places)] if places is not None else []))
+        got = V.norm(out.value) if out.end == 'return' else (out.end, V.norm(out.value))
+        if isinstance(want, tuple) and want[0] == 'text':
+            ok = got == ('Text', want[1])
+        elif isinstance(want, tuple):
+            ok = isinstance(got, tuple) and got[0] == 'Number' and got[1] == want[1]
+        elif want == '#NUM!':
+            ok = got in (('error', '#NUM!'), ('error-class', 'NumExcelError'))
+        else:
+            ok = got in (('error', '#VALUE!'), ('error-class', 'ValueExcelError'))
+        n += 1
+        if not ok:
+            per_fn.setdefault(name, []).append(f'{name}({number!r}{"" if places is None else ", " + repr(places)}) = {got!r} instead of {want!r}')
+    for name in names:
+        f = V.registered(ctx, name)
+        wrong = per_fn.get(name, [])
+        ctx.expect(not wrong, f.node, f'{name}: {CATEGORY[category][1].split(":")[0].split("(")[0].strip()}', '; '.join(wrong[:4]))
+    ctx.note(f'{n} conversions compared with the reference')
+    ctx.floor(12, 'conversion functions')
+
+
+def rule_1(ctx):
+    _witness_rule(ctx, 'window')
+
+
+def rule_2(ctx):
+    _witness_rule(ctx, 'small')
+
+
+def rule_3(ctx):
+    _witness_rule(ctx, 'guards')
+
+
+def rule_4(ctx):
+    _witness_rule(ctx, 'negative')
+
+
 RULES = [
-    ('C19.1', 'tables cohere', rule_1),
-    ('C19.2', 'twelve wrappers', rule_2),
-    ('C19.3', 'guards: decision tables at critical points', rule_3),
-    ('C19.4', 'origin/destination roles', rule_4),
+    ('C19.1', 'window boundaries of every pair of bases (twelve functions against a reference, through the registered wrapper)', rule_1),
+    ('C19.2', 'small non-negative values through every function', rule_2),
+    ('C19.3', 'places and invalid inputs: #NUM! / #VALUE! decisions', rule_3),
+    ('C19.4', 'negative values: two\'s complement by origin / destination width', rule_4),
     ('C19.5', 'module reachable from the package (shared with C08.6)', rule_5),
 ]
